@@ -99,6 +99,31 @@ def deep_inputs(bases):
         yield "deep-" + nm, out
 
 
+def hostile_length_inputs(bases):
+    """(family, [file bytes]): every length-carrying type code with a hostile length field, alone and as the first thing
+    inside a dict / tuple / list, under the header of every reference version and under the Dropbox 2.5 magic (whose files
+    go through a different reader, xdis.marsh's)"""
+    hdrs = [("dropbox", struct.pack("<H", 62135) + b"\r\n" + b"\0\0\0\0")]
+    for name, data in bases:
+        if name.startswith("farm-"):
+            v = common.vt(name[5:])
+            n = 8 if v < (3, 3) else (12 if v < (3, 7) else 16)
+            hdrs.append((name[5:], data[:n]))
+    lens = [-1, -5, -2 ** 31, 2 ** 31 - 1, 2 ** 16]
+    out = []
+    for hv, h in hdrs:
+        for code in b"stuaA([<>lR":
+            for ln in lens:
+                body = bytes(bytearray([code])) + struct.pack("<i", ln) + b"0" * 40
+                for wrap in (b"", b"{", b"(\x02\x00\x00\x00", b"[\x02\x00\x00\x00", b"{N"):
+                    out.append(h + wrap + body)
+        for code in b"zZ)":
+            for ln in (0, 255):
+                out.append(h + b"{" + bytes(bytearray([code, ln])) + b"0" * 40)
+    for i in range(0, len(out), 400):
+        yield "hostile-length", out[i:i + 400]
+
+
 def faults(name, data, tier):
     """yield (family, mutated bytes)"""
     n = len(data)
@@ -150,7 +175,7 @@ def cases(plan, tier, shard, nshards, host):
             yield {"kind": "magic16", "lo": lo, "hi": lo + 2048}
     # every host: hostile nesting depth (the pure-Python reader recurses; what it does at the recursion limit, and how the
     # error is reported, differs between host versions) and the single faults of the host's *own* version (native path)
-    for fam, inputs in deep_inputs(bases):
+    for fam, inputs in list(deep_inputs(bases)) + list(hostile_length_inputs(bases)):
         k += 1
         if k % nshards == shard:
             yield {"kind": "hostblock", "base": "deep", "family": fam, "inputs": [hx(b) for b in inputs]}
